@@ -1,12 +1,13 @@
 """C20 - sets and spaces: equality, hashing, membership and element creation are coherent.
 
 Pipeline (DESIGN 4/C20):
-  1. TLC, MC_Sets_laws: over all pairs / triples of the instantiated universe (two objects per descriptor)
+  1. TLC, MC_Sets_laws: over all pairs / triples of the instantiated universe (three objects per descriptor)
      layer A (SetSem!SetEq) is an equivalence and separates copies exactly where an un-shared array
      weighting is involved; layer C (EqHashImpl: every __eq__/__hash__/__contains__ as written) obeys the laws
-     and refines layer A except in the named cells (which are shown to be real).
-  2. TLC, MC_Sets_export: every object descriptor as a JSON line; Python builds the real ODL objects (two
-     independently constructed copies), records the observed == matrix, hashes (exceptions recorded),
+     and refines layer A without exception; the derived-space constructors (DerivedSpaceImpl) refine layer A
+     except in the cells of the open findings (which are shown to be real).
+  2. TLC, MC_Sets_export: every object descriptor (with its derived-space cases) as a JSON line; Python builds
+     the real ODL objects (three independently constructed copies), records the observed == matrix, hashes (exceptions recorded),
      `in` for an element of every space, and the element() / derived-space / indexing cases.
   3. TLC, Trace_Sets validates everything: the laws ON THE OBSERVED relation, the observed relation
      against SetEq, element()/astype/real/complex/byaxis/byaxis_in/product-space indexing against SetSem,
@@ -395,7 +396,14 @@ def run(ctx):
         'astype to a non-floating dtype: shape / dtype / field only (the weighting is dropped on purpose by the code); '
         'byaxis on array-weighted spaces: claimed for permutations of all axes only; byaxis_in: weighting claimed for '
         'the default (cell volume) weighting only (documented "except possibly weighting")',
-        'product-space element indexing by (slice, int) tuples keeps a length-1 axis on purpose and is not offered']
+        'product-space element indexing by (slice, int) tuples keeps a length-1 axis on purpose and is not offered',
+        'three objects per descriptor: generic constructors / factory + keyword spellings / alternative spellings '
+        '(rn, cn, ** n, dtype given as type / np.dtype / string, uniform_grid, uniform_partition_fromgrid, '
+        'nonuniform_partition, uniform_discr_frompartition, weights as int / list / wrapped element, permuted and '
+        'duplicated members of unions and finite sets)',
+        'the == matrix, hashes and membership are observed twice: on the fresh objects and again after all derived-space / '
+        'element / indexing calls on them and after an in-place modification of every wrapped weight array',
+        'a 0-d input offered to a one-entry space is promoted by ndmin and is not counted as an incompatible shape']
     work = ctx.work
     out = os.path.join(work, 'objects.ndjson')
 
